@@ -1,23 +1,28 @@
 import Casm.Proofs.IterModel
 import Casm.Proofs.AssembleLemmas
+import Casm.Proofs.BudgetMono
 /-!
 # C09 — the iteration budget decides whether a program assembles, never to what
 
 * `iters_le_budget` — the pass count reported by a successful assembly never exceeds the
   budget (unconditional, about `Casm.assemble`).
 * `budget_one_is_single_strict_pass` — with budget 1 the only pass is first *and* last.
-* `budget_monotone_of_laws` — for the loop skeleton of `resolve_iteratively` over the model's
-  pass: if the loop succeeds with budget `n`, it succeeds with every `m ≥ n` with the
-  identical final state, provided the pass obeys `Iter.Laws` (a stable non-first pass is the
-  identity; a stable first pass yields a strict fixed point; where the strict pass is stable
-  the guessing pass computes the same state; the `first` flag is irrelevant on fixed points).
-  The laws are statements about one pass, independent of any budget.  `stableId` is proved for
-  the model in `Casm.Proofs.StableId`; the other three are established per run by the
-  correspondence (budget sweep against the implementation and the model), so this theorem is
-  the *partial* form of the monotonicity claim: the budget enters only through the loop
-  skeleton, and for the skeleton the claim is proved.  The inner budget of `asm` blocks (the
-  same `--iters` value, `evalAsm`) is part of the pass and is held fixed in this theorem; its
-  variation is covered by the correspondence sweep only.
+* `budget_monotone` — **for the model's `resolve_iteratively` itself**: if the iteration succeeds
+  with budget `n ≥ 2` it succeeds with every budget `m ≥ n` with the identical final state (hence
+  identical bits, spans and symbols, which are read from that state); `lower_budget_same_or_error`
+  — lowering the budget (down to 2) yields an error or the same state.  The proof: both budgets
+  run the same passes with the same flags up to pass `n − 1`; the strict pass `n` of the small
+  budget, being stable, is the identity (`Casm.C02.stable_nonfirst_pass_is_identity`), so the
+  state is a fixed point; the larger budget runs the *guessing* pass there, which computes the
+  same state (`guessing_agrees_with_strict`, resting on `evaluation_is_monotone`: guessing only
+  replaces errors by `Unknown`, strict-only checks only add errors); from a fixed point every
+  further pass stays there until the loop ends or the confirming pass accepts.
+  Hypotheses: `NoClash nodes` (decidable, evaluated on every certificate run, see C02) and the
+  *inner* budget of `asm` blocks — the same `--iters` option, read from the static part `st` — is
+  held fixed while the outer budget varies; the joint variation is covered by the budget sweep.
+  Budget 1 (the only pass is the first one) is also left to the sweep.
+* `budget_monotone_of_laws` — the same statement for the generic loop skeleton over any pass
+  obeying four budget-independent laws (kept: it documents what the skeleton needs).
 -/
 namespace Casm.C09
 
@@ -54,7 +59,40 @@ theorem iters_le_budget (opts : Opts) (fs : SrcFiles) (roots : List (List Char))
             · cases h
             · injection h with h; subst h; simpa [hst] using hk
 
-/-- **C09 (monotonicity of the loop skeleton), partial form — see the header.** -/
+/-- **C09 (monotonicity), for the model's loop.**  Success with budget `n ≥ 2` implies success
+    with every larger budget with the identical final state. -/
+theorem budget_monotone (st : Static) (nodes : List AstNode) (hwf : NoClash nodes) (n m : Nat) (hn : 2 ≤ n) (hnm : n ≤ m)
+    (d0 : Defs) (k : Nat) (d : Defs) (rep : List String) (h : resolveIterativelyN st nodes n d0 = .ok (k, d, rep)) :
+    ∃ k' rep', resolveIterativelyN st nodes m d0 = .ok (k', d, rep') :=
+  budget_monotone_model st nodes hwf n m hn hnm d0 k d rep h
+
+/-- lowering the budget can only turn success into an error, never into a different state -/
+theorem lower_budget_same_or_error_model (st : Static) (nodes : List AstNode) (hwf : NoClash nodes) (n m : Nat) (hn : 2 ≤ n) (hnm : n ≤ m)
+    (d0 : Defs) (k k' : Nat) (d d' : Defs) (rep rep' : List String)
+    (h : resolveIterativelyN st nodes n d0 = .ok (k, d, rep))
+    (h' : resolveIterativelyN st nodes m d0 = .ok (k', d', rep')) : d' = d := by
+  obtain ⟨k2, rep2, h2⟩ := budget_monotone st nodes hwf n m hn hnm d0 k d rep h
+  rw [h'] at h2
+  injection h2 with h2; injection h2 with _ h2; injection h2 with h2 _
+
+/-- **where the strict pass is stable, the guessing pass computes the same state** -/
+theorem guessing_agrees_with_strict (st : Static) (nodes : List AstNode) (d d' : Defs) (rep : List String)
+    (h : resolveOnce st nodes false true d = .ok (d', true, rep)) :
+    ∃ b rep', resolveOnce st nodes false false d = .ok (d', b, rep') :=
+  resolveOnce_guess st nodes d d' rep h
+
+/-- **evaluation is monotone in its environment**: if every answer of one environment is also
+    the answer of another, every value computed in the first is computed in the second -/
+theorem evaluation_is_monotone (env1 env2 : EvalEnv) (le : EnvLe env1 env2) (c : ECtx) (e : Expr) (r : Value × ECtx)
+    (h : eval env1 c e = .ok r) : eval env2 c e = .ok r :=
+  eval_mono env1 env2 le c e r h
+
+/-- the resolver's environment with guessing forbidden is below the one with guessing allowed -/
+theorem strict_env_below_guessing_env (st : Static) (defs : Defs) (fuel : Nat) (c : RCtx) :
+    EnvLe (mkEnv st defs fuel c) (mkEnv st defs fuel (guessOf c)) :=
+  mkEnv_le st defs fuel c
+
+/-- **C09 (monotonicity of the loop skeleton under pass laws)** -/
 theorem budget_monotone_of_laws (st : Static) (nodes : List AstNode) (L : Iter.Laws (absPass st nodes))
     (n m : Nat) (hn : 1 ≤ n) (hnm : n ≤ m) (d0 : Defs) (k : Nat) (d : Defs) (rep : List String)
     (h : resolveIterativelyN st nodes n d0 = .ok (k, d, rep)) :
